@@ -61,6 +61,13 @@ def check_selection(names, via_main=False):
         else:
             findings.append(("C12/entry-differs", why, "entries equal to solving each game alone",
                              "selection %r%s: %s" % (list(names), " through main()" if via_main else "", why)))
+    if not via_main and not findings and not known and len(names) <= 2:
+        # history: the same dictionary object run a second time in the same process must give the same entries
+        st, val2 = budget.run_budgeted(lambda: CR.run_games(batch), cpu_s=60.0, max_lines=100_000_000)
+        why2 = B.compare_entries(val2, expected) if st == "ok" else "second run: %r" % (val2,)
+        if why2 and not B.has_name_collision(names):
+            findings.append(("C12/second-run-differs", why2, "the same entries as the first run",
+                             "selection %r run a second time on the same dictionary: %s" % (list(names), why2)))
     if not via_main:
         for n, g in batch.items():
             rest = {k: v for k, v in g.items() if k != "prune_states"}
